@@ -43,8 +43,8 @@ pub(crate) fn range_with_prefix<'a>(
     };
     let end = match end {
         Some(e) => Some(concat(namespace, e)),
-        // an empty namespace has no upper bound
-        None if namespace.is_empty() => None,
+        // an empty namespace, or one made of 0xFF bytes only, has no upper bound
+        None if namespace.iter().all(|b| *b == 255) => None,
         // end is updating last byte by one
         None => Some(namespace_upper_bound(namespace)),
     };
